@@ -503,6 +503,35 @@ std::vector<Sub> vh_subs() {
     };
     subs.push_back(s);
   }
+  // ------------------------------------------------------------ (d') the table-free recursive implementations (exported, used as oracles by the
+  // library's own tests): reim_naive_(i)fft / cplx_(i)fft_naive "mod X^m - exp(2i.pi.entry_pwr)", entry powers (1+4r)/2^(2+e)
+  {
+    Sub s;
+    s.name = "naive";
+    s.fields = {{"k", 0, 12}, {"layout", 0, 1}, {"dir", 0, 1}, {"epl", 0, 6}, {"epu", 0, 63}, {"fam", 0, NFAM - 1}, {"cexp", -400, 400}, {"idx", 0, 65535}, {"amode", 0, 2}, F_SEED};
+    s.run = [](const Vals& v, Ctx& c) {
+      Case cs;
+      cs.k = (unsigned)v[0], cs.layout = (int)v[1], cs.dir = (int)v[2], cs.fam = (int)v[5], cs.cexp = (int)v[6];
+      cs.idx = (uint64_t)v[7], cs.amode = (int)v[8], cs.seed = (uint64_t)v[9];
+      const uint64_t m = 1ull << cs.k;
+      const unsigned e = (unsigned)v[3];
+      cs.tlog = 2 + e;
+      cs.tnum = 1 + 4 * ((uint64_t)v[4] & ((1ull << e) - 1));
+      const double entry_pwr = std::ldexp((double)cs.tnum, -(int)cs.tlog);
+      Call cl;
+      const int layout = cs.layout, dir = cs.dir;
+      cl.fn = [=](double* d) {
+        if (layout == REIM) (dir == FWD ? reim_naive_fft : reim_naive_ifft)(m, entry_pwr, d, d + m);
+        else if (dir == FWD) cplx_fft_naive((uint32_t)m, entry_pwr, (CPLX*)d);
+        else cplx_ifft_naive((uint32_t)m, entry_pwr, (CPLX*)d);
+      };
+      const std::string name = std::string(layout == REIM ? (dir == FWD ? "reim_naive_fft" : "reim_naive_ifft") : (dir == FWD ? "cplx_fft_naive" : "cplx_ifft_naive"));
+      c.cls("entry:naive");
+      c.cls(e == 0 ? "entry_pwr:1/4" : "entry_pwr:inner_block");
+      run_case(c, cs, name, name, cl);
+    };
+    subs.push_back(s);
+  }
   // ------------------------------------------------------------ (e) the *_simple entry points (process-wide cached tables)
   // ------------------------------------------------------------ (f) data living in the table's own built-in buffers
   // new_*_precomp(m, num_buffers) appends num_buffers scratch vectors to the table ("contiguous to the constant tables"): a
